@@ -46,3 +46,13 @@ func verifPBAllocation(x channel.Allocation) (y *channel.Allocation, fromErr, to
 	y, toErr = ToAllocation(p)
 	return y, nil, toErr
 }
+
+// The signature list of a signed state: unsigned slots (nil) and the bytes of the signed ones survive the conversion.
+func verifPBSignedStateSigs(x *channel.SignedState) (y channel.SignedState, fromErr, toErr error) {
+	p, err := FromSignedState(x)
+	if err != nil {
+		return y, err, nil
+	}
+	y, toErr = ToSignedState(p)
+	return y, nil, toErr
+}
